@@ -8,7 +8,8 @@
 
 uint64_t pv_wrap_count[PV_WRAP_N];
 int pv_wrap_time_scripted; time_t pv_wrap_time_value;
-static const char* const NAMES[PV_WRAP_N] = { "malloc", "free", "calloc", "realloc", "time", "clock_gettime", "gettimeofday", "getrandom", "getentropy", "rand", "random", "open", "fopen", "clock" };
+static const char* const NAMES[PV_WRAP_N] = { "malloc", "free", "calloc", "realloc", "time", "clock_gettime", "gettimeofday", "getrandom", "getentropy", "rand", "random", "open", "fopen", "clock",
+    "mktime", "timegm", "gmtime", "gmtime_r", "localtime", "localtime_r" };
 const char* pv_wrap_name(int i) { return NAMES[i]; }
 #define HIT(i) do { if (pv_in_lib) __atomic_fetch_add(&pv_wrap_count[i], 1, __ATOMIC_RELAXED); } while (0)
 
@@ -35,3 +36,13 @@ long __wrap_random(void) { HIT(PV_WRAP_RANDOM); return __real_random(); }
 int __wrap_open(const char* p, int fl, ...) { HIT(PV_WRAP_OPEN); va_list ap; va_start(ap, fl); int mode = va_arg(ap, int); va_end(ap); return __real_open(p, fl, mode); }
 FILE* __wrap_fopen(const char* p, const char* m) { HIT(PV_WRAP_FOPEN); return __real_fopen(p, m); }
 clock_t __wrap_clock(void) { HIT(PV_WRAP_CLOCK); return __real_clock(); }
+
+/* calendar conversions: they bring the process environment (TZ, zone database) into the result */
+time_t __real_mktime(struct tm*); time_t __real_timegm(struct tm*); struct tm* __real_gmtime(const time_t*); struct tm* __real_gmtime_r(const time_t*, struct tm*);
+struct tm* __real_localtime(const time_t*); struct tm* __real_localtime_r(const time_t*, struct tm*);
+time_t __wrap_mktime(struct tm* t) { HIT(PV_WRAP_MKTIME); return __real_mktime(t); }
+time_t __wrap_timegm(struct tm* t) { HIT(PV_WRAP_TIMEGM); return __real_timegm(t); }
+struct tm* __wrap_gmtime(const time_t* t) { HIT(PV_WRAP_GMTIME); return __real_gmtime(t); }
+struct tm* __wrap_gmtime_r(const time_t* t, struct tm* r) { HIT(PV_WRAP_GMTIME_R); return __real_gmtime_r(t, r); }
+struct tm* __wrap_localtime(const time_t* t) { HIT(PV_WRAP_LOCALTIME); return __real_localtime(t); }
+struct tm* __wrap_localtime_r(const time_t* t, struct tm* r) { HIT(PV_WRAP_LOCALTIME_R); return __real_localtime_r(t, r); }
